@@ -90,8 +90,6 @@ theorem equivCL_nil_left {cs' : List Tree} (h : equivCL [] cs' = true) : cs' = [
   | nil => rfl
   | cons _ _ => simp [equivCL] at h
 
-theorem hasKind_str_of_carg {v v' : Fmt} (h : CArg v v') : True := trivial
-
 mutual
   theorem fold_equivC (tbl : Table) (iw : Nat) (ht : tableTyped tbl = true) (hn : tableNormal tbl = true)
       (hcm : tableComment tbl = true) :
